@@ -74,6 +74,9 @@ SCALAR_T = [
     ("dq_pre_post", [("D", [("T", "pre"), P_XB, ("T", "post")])], lambda v, c: ("OK", ["pre" + v + "post"])),
     ("dq_dq", [("D", [P_X]), ("D", [P_X])], lambda v, c: ("OK", [v + v])),
     ("dq_sq", [("D", [P_X]), ("Q", "q r")], lambda v, c: ("OK", [v + "q r"])),
+    ("dq_emptydq", [("D", [P_X]), ("D", [])], lambda v, c: ("OK", [v])),
+    ("emptydq_dq", [("D", []), ("D", [P_XB])], lambda v, c: ("OK", [v])),
+    ("dq_emptysq", [("D", [P_X]), ("Q", "")], lambda v, c: ("OK", [v])),
     ("dq_star", [("D", [P_X]), ("T", "*")], lambda v, c: glob_lit(v, "", False, c)),
     ("star_dq", [("T", "*"), ("D", [P_X])], lambda v, c: glob_lit(v, "", True, c)),
     ("unq_x", [P_X], None),
@@ -150,7 +153,7 @@ def scalar_case(rng, v, tname=None, ctx=None):
     elif ctx in ("condp", "casep"):
         # the word is the PATTERN; quoted => matches only itself
         if spec is None or name in ("dq_star", "star_dq"):
-            name, word, spec = SCALAR_T[rng.randrange(0, 8)]
+            name, word, spec = SCALAR_T[rng.randrange(0, 11)]
             c = X.Case(ctx, word, ifs=ifs, opts=opts, vars=[("x", v), ("HOME", "/hm")], names=names,
                        cmd_out={CMD: v, CMDNL: v + "\n\n"}, tag=name)
             exp = spec(v, c)
